@@ -105,6 +105,9 @@ def run(run, binfo):
             if rng.random() < 0.3:
                 leaves.append('role:' + rng.choice(nm))
             rules[n] = render_expr(rng, leaves, rng.randint(1, 6))
+            if rng.random() < 0.2:
+                # tokens separated by tabs / line breaks (as a multi-line YAML value would have them)
+                rules[n] = rules[n].replace(' ', rng.choice(['\t', '\n', '  \n  ', '\r\n']))
         sets.append(rules)
     run.count('exhaustive_rule_sets', nexh)
     run.count('random_rule_sets', nrand)
